@@ -251,6 +251,8 @@ func typeKey(t types.Type) string {
 		t = types.Typ[b.Kind()]
 	}
 	s := types.TypeString(t, func(p *types.Package) string { return p.Name() })
+	// `any` and `interface{}` are one type: one heap
+	s = strings.ReplaceAll(s, "interface{}", "any")
 	if k, ok := typeKeyCache[s]; ok {
 		return k
 	}
